@@ -244,6 +244,22 @@ func (s *Sim) pick(field string) any {
 func (s *Sim) recordLocal(r int, docID string, writes map[string]any) {
 	rep := s.reps[r]
 	for _, h := range rep.n.CompositeHeads(s.ctx, docID) {
+		if prev := s.commits[h]; prev != nil && prev.Known {
+			// The operation that has just been acknowledged produced a commit that is byte-identical
+			// (same cid) to a commit produced by an EARLIER acknowledged operation. For registers and
+			// deletes that is harmless (same parents, same values: idempotent). A counter increment
+			// however is an update of its own: two increments must never collapse into one commit,
+			// or one of them is lost on every replica - invisible to any oracle that folds commits.
+			s.rec.Count("identical_commit_from_two_operations", 1)
+			for _, f := range counterFields {
+				if v, ok := writes[f]; ok && v != nil && toF(v) != 0 && has(s.readCommit(rep.n, h).Fields, f) {
+					if s.O.Fold {
+						s.violate("fold/distinct-counter-updates-collapsed-into-one-commit", fmt.Sprintf("the acknowledged update of counter %s on r%d (%v) produced commit %s, which an earlier acknowledged update had already produced: the two increments are one commit, one of them is lost", f, r, v, h[len(h)-6:]))
+					}
+					break
+				}
+			}
+		}
 		if rep.M[h] {
 			continue
 		}
